@@ -6,7 +6,7 @@ use engines::maphist::{history, required_rows};
 fn main() {
     let mut cx = Ctx::from_args("eng_map");
     let fams: Vec<String> = cx.args.str("fam", "track,copy").split(',').map(str::to_string).collect();
-    let caps = cx.args.list("caps", &[0, 1, 2, 3, 4, 8]);
+    let caps = cx.args.list("caps", &[0, 1, 2, 3, 4, 8, 40, 70]);
     let max_steps = cx.args.usize("max-steps", 96);
     cx.rep.required = required_rows(&cx.prop.clone()).iter().map(|s| s.to_string()).collect();
     cx.run_histories(|cx, hist| {
@@ -15,13 +15,14 @@ fn main() {
         let supported: &[usize] = match fam.as_str() {
             "track" => &[0, 1, 2, 3, 4, 5, 8, 16, 32],
             "large" => &[1, 2, 4],
+            "copy" => &[0, 1, 2, 3, 4, 8, 40, 70],
             _ => &[0, 1, 2, 3, 4, 8],
         };
         let usable: Vec<usize> = caps.iter().copied().filter(|c| supported.contains(c)).collect();
         let n = if usable.is_empty() { supported[0] } else { usable[rng.usize_below(usable.len())] };
         match fam.as_str() {
             "track" => engines::dispatch_n!(n, [0, 1, 2, 3, 4, 5, 8, 16, 32], history, Track, (cx, hist, rng, max_steps)),
-            "copy" => engines::dispatch_n!(n, [0, 1, 2, 3, 4, 8], history, Copyf, (cx, hist, rng, max_steps)),
+            "copy" => engines::dispatch_n!(n, [0, 1, 2, 3, 4, 8, 40, 70], history, Copyf, (cx, hist, rng, max_steps)),
             "raw" => engines::dispatch_n!(n, [0, 1, 2, 3, 4, 8], history, Raw, (cx, hist, rng, max_steps)),
             "large" => engines::dispatch_n!(n, [1, 2, 4], history, Large, (cx, hist, rng, max_steps)),
             "zst" => engines::dispatch_n!(n, [0, 1, 2, 3, 4, 8], history, Zst, (cx, hist, rng, max_steps)),
